@@ -525,11 +525,13 @@ fn part(tier: Tier) -> Part {
 
 pub fn run(tier: Tier, part_only: bool) -> i32 {
     let t0 = std::time::Instant::now();
-    let own = part(tier);
+    // cheap check: both tiers run the thorough case list (a few seconds on three builds)
+    let own = part(Tier::Thorough);
     if part_only {
         return emit_part(&own);
     }
     let mut rep = Report::new("C01", tier, "exploration");
+    rep.set("tiers", json!("the quick tier runs the thorough tier's cases as well"));
     rep.t0 = t0;
     own.merge_into(&mut rep);
     for v in ["memfd", "inproc"] {
